@@ -669,4 +669,10 @@ theorem LInv.quiescent_agree {sys : Sys} (h : LInv sys) (hq : quiescent sys = tr
     rw [hq thi (List.mem_of_getElem? hi)] at hopsi
     cases hopsi
 
+/-- a key is listed by a scan with prefix `p` iff it matches the prefix and the full scan lists it -/
+theorem mem_scanNow_iff (s : Store) (p : Option KeyClass) (k : Key) :
+    k ∈ scanNow s p ↔ (pmatch p k = true ∧ k ∈ scanNow s none) := by
+  simp only [scanNow, List.mem_append, List.mem_filter, pmatch]
+  cases p <;> simp only [true_and, and_true] <;> grind
+
 end Neumann.KV
